@@ -32,7 +32,8 @@ type c11Worker struct {
 }
 
 type c11Scenario struct {
-	// configured concurrency per scope (0 = not configured)
+	// configured concurrency per scope (0 = not configured; -1 = configured as "concurrency -1", -2 = as "concurrency 0":
+	// "negative or zero: all methods are no-op" says the limiter's documentation, i.e. no limit)
 	All, IP, Source, Dest int
 	// an additional rate limit (RateN messages per 6 s) in one scope, declared after the concurrency limit of
 	// that scope: a message that passes the concurrency limit and then times out on the rate returns its permit
@@ -42,9 +43,11 @@ type c11Scenario struct {
 }
 
 func c11Gen(t *rapid.T) c11Scenario {
-	n := func(label string) int { return rapid.SampledFrom([]int{0, 0, 1, 1, 2, 3}).Draw(t, label) }
+	n := func(label string) int {
+		return rapid.SampledFrom([]int{0, 0, 0, 1, 1, 1, 2, 2, 3, 3, -1, -2}).Draw(t, label)
+	}
 	sc := c11Scenario{All: n("all"), IP: n("ip"), Source: n("source"), Dest: n("dest")}
-	if sc.All+sc.IP+sc.Source+sc.Dest == 0 {
+	if sc.All <= 0 && sc.IP <= 0 && sc.Source <= 0 && sc.Dest <= 0 {
 		sc.Dest = 1
 	}
 	if rapid.IntRange(0, 2).Draw(t, "with_rate") == 0 {
@@ -75,8 +78,13 @@ func c11Gen(t *rapid.T) c11Scenario {
 func c11Group(sc c11Scenario) (*Group, error) {
 	var nodes []config.Node
 	add := func(scope string, n int) {
-		if n > 0 {
+		switch {
+		case n > 0:
 			nodes = append(nodes, config.Node{Name: scope, Args: []string{"concurrency", fmt.Sprint(n)}})
+		case n == -1:
+			nodes = append(nodes, config.Node{Name: scope, Args: []string{"concurrency", "-1"}})
+		case n == -2:
+			nodes = append(nodes, config.Node{Name: scope, Args: []string{"concurrency", "0"}})
 		}
 		if scope == sc.RateScope && sc.RateN > 0 {
 			nodes = append(nodes, config.Node{Name: scope, Args: []string{"rate", fmt.Sprint(sc.RateN), "6s"}})
@@ -106,7 +114,7 @@ func c11Run(sc c11Scenario) (vs []ev.V) {
 	acquired, timedOut := 0, 0
 	limit := map[string]int{"all": sc.All, "ip": sc.IP, "source": sc.Source, "destination": sc.Dest}
 	hold := func(scope, key string, delta int) {
-		if limit[scope] == 0 {
+		if limit[scope] <= 0 {
 			return
 		}
 		k := scope + "/" + key
@@ -199,7 +207,7 @@ func c11Run(sc c11Scenario) (vs []ev.V) {
 				}
 			}()
 			probe := func(what string, n int, take func(ctx context.Context) error, release func()) {
-				if n == 0 {
+				if n <= 0 {
 					return
 				}
 				got := 0
